@@ -12,11 +12,36 @@ OPTS = ("positive_init_speed", "positive_init_density", "positive_init_queue",
         "positive_next_speed", "positive_next_density", "positive_next_queue")
 
 
-def np_inputs(built: Built, val: dict, scalar_shape="1d"):
+def supply_modes(spec: NetSpec):
+    """The 'which initial conditions does the caller supply' dimension: list of (label, frozenset of supplied
+    (key, var) pairs).  Nothing supplied (an EMPTY dict, not None); every single element omitted; every single element
+    alone; every single variable omitted.  Everything not supplied is created by the engine itself."""
+    allv = [(k, v) for k, v, n, r in spec.variables()]
+    keys = list(dict.fromkeys(k for k, v in allv))
+    modes = [("none-supplied", frozenset())]
+    for k in keys:
+        modes.append((f"omit-element:{k}", frozenset(x for x in allv if x[0] != k)))
+        if len(keys) > 1:
+            modes.append((f"only-element:{k}", frozenset(x for x in allv if x[0] == k)))
+    for x in allv:
+        if sum(1 for y in allv if y[0] == x[0]) > 1:
+            modes.append((f"omit-variable:{x[0]}.{x[1]}", frozenset(y for y in allv if y != x)))
+    return modes
+
+
+def filled(spec: NetSpec, val: dict, supply, fill: float):
+    """The value vector the step really starts from when only `supply` is given and the engine fills the rest."""
+    return {k: (list(v) if k in supply else [float(fill)] * len(v)) for k, v in val.items()}
+
+
+def np_inputs(built: Built, val: dict, scalar_shape="1d", supply=None):
     """init_conditions for the NumPy engine.  Link vectors have shape (N,); origin and
-    destination scalars are 0-d ('0d') or length-1 ('1d') arrays."""
+    destination scalars are 0-d ('0d') or length-1 ('1d') arrays.  With `supply` only those (key, var) pairs are
+    given (an element none of whose variables is supplied does not appear at all)."""
     ic = {}
     for (key, var), lst in val.items():
+        if supply is not None and (key, var) not in supply:
+            continue
         el = built.obj[key]
         if key.startswith("L"):
             arr = np.array(lst, dtype=float)
@@ -44,13 +69,17 @@ def to_lists(nxt: dict) -> dict:
 
 
 def np_step(spec: NetSpec, val: dict, P: dict, opts: dict = None, scalar_shape="1d", built: Built = None,
-            engine=None):
+            engine=None, supply=None, positional=False):
     """One real NumPy step on a fresh network; returns ({(key,var): [floats]}, built, raw)."""
     if built is None:
         built = build(spec)
     eng = engine or env.numpy_engine()
-    ic = np_inputs(built, val, scalar_shape)
-    built.net.step(init_conditions=ic, engine=eng, **P, **(opts or {}))
+    ic = np_inputs(built, val, scalar_shape, supply)
+    if positional:
+        # the documented positional order of Network.step: init_conditions, engine, then the six options in OPTS order
+        built.net.step(ic, eng, *[bool((opts or {}).get(o, False)) for o in OPTS], **P)
+    else:
+        built.net.step(init_conditions=ic, engine=eng, **P, **(opts or {}))
     raw = read_next(built)
     return to_lists(raw), built, raw
 
@@ -131,12 +160,22 @@ class Compiled:
 
 
 def cs_compile(spec: NetSpec, sym: str, P: dict, opts: dict = None, compact=0, more_out=False, built: Built = None,
-               parameters=None, step_P=None, override=None):
-    """Real symbolic step + to_function on a fresh network.  Returns (F, built, engine)."""
+               parameters=None, step_P=None, override=None, supply=None):
+    """Real symbolic step + to_function on a fresh network.  Returns (F, built, engine).  With `supply` (a set of
+    (key, var) pairs) the caller provides its own symbols for exactly those variables through init_conditions (an
+    empty dict when the set is empty) and the engine creates the rest."""
     if built is None:
         built = build(spec, override=override)
     eng = env.casadi_engine(sym)
-    built.net.step(engine=eng, **(step_P if step_P is not None else P), **(opts or {}))
+    kw0 = {}
+    if supply is not None:
+        ic = {}
+        for key, var, n, role in spec.variables():
+            if (key, var) in supply:
+                el = built.obj[key]
+                ic.setdefault(el, {})[var] = eng.var(f"{var}_{el.name}", n)
+        kw0["init_conditions"] = ic
+    built.net.step(engine=eng, **kw0, **(step_P if step_P is not None else P), **(opts or {}))
     kw = {}
     if more_out:
         kw.update({k: v for k, v in P.items()})
